@@ -28,7 +28,14 @@ P = {'id': 'C18',
               'process_batch_is_map',
               'two_stage_composes',
               'batch_collector_partition',
-              'collector_timeout_not_early'],
+              'collector_timeout_not_early',
+              'executor_conservation',
+              'executor_counters',
+              'executor_capacity_bound',
+              'submit_admission',
+              'submit_race_rejects',
+              'is_idle_characterised',
+              'is_idle_window_exists'],
  'trusted': ['modelled (M+S): src/concurrency/work_stealing.rs WorkStealingQueue::{push_local, pop_local, steal, balance, len} and '
              'WorkStealingExecutor::{submit, find_task, one worker_loop iteration incl. the periodic balance, total_queued, is_idle} with every queue '
              'operation one atomic step; the index-tagged result collection of FiberPool::{parallel_map, spawn_batch, parallel_reduce}, '
